@@ -228,7 +228,21 @@ def fast_scratch(ctx):
     return os.path.join(ctx.scratch, "db")
 
 
-def case_expr(ty, ops, obs_mem, obs_sql, fin_mem, fin_sql, copy_flag="statestore_dictlike_copy_copies_data"):
+def source_flags():
+    """The statestore_* shape flags of the source tree under check (the same extraction that writes
+    Generated.v), as Coq literals.  The case files get them as literals rather than through the shared
+    Generated.vo, which a concurrently running check of another tree may have rewritten."""
+    import re
+    import translate
+    import translate_statestore as TS
+    try:
+        txt = TS.extract(translate.src)
+    except (TS.Err, translate.TranslateError, SyntaxError):
+        return {}           # unknown shape: prove() reports it; the suite runs the repaired-behaviour model
+    return dict(re.findall(r"Definition (\w+) : bool := (true|false)\.", txt))
+
+
+def case_expr(ty, ops, obs_mem, obs_sql, fin_mem, fin_sql, copy_flag="true"):
     return "check_case %s CT %s %s %s %s %s %s" % (
         copy_flag, gzlist(ty), glist(gop(o) for o in ops), glist(gout(r) for r in obs_mem),
         glist(gout(r) for r in obs_sql), gsobj(fin_mem), gsobj(fin_sql))
@@ -720,12 +734,10 @@ def gen_case(rng, i):
 def long_path_cases():
     """Depth guard: 1000 segments are allowed, 1001 are not (get raises even with a default)."""
     p1000 = ".".join(["a"] * 1000)
-    p1001 = ".".join(["a"] * 1001)
+    p1001 = p1000 + ".a"
     return [
-        ([0], [("get", p1000, None), ("get", p1000, (3,)), ("get", p1001, None), ("get", p1001, (3,)),
-               ("set", p1001, 1), ("get_state",)]),
-        ([1, 2], [("get", "p1." + p1000[2:], (4,)), ("get", "p1." + p1000, (4,)), ("set", "p1." + p1000, 1),
-                  ("get", "p1.a", None)]),
+        ([0], [("get", p1000, (3,)), ("get", p1001, (3,)), ("get", p1001, None), ("set", p1001, 1), ("get_state",)]),
+        ([1, 2], [("get", "p1." + p1000[2:], (4,)), ("set", "p1." + p1000, 1), ("get", "p1.a", None)]),
     ]
 
 
